@@ -2,7 +2,7 @@
 See translate.py for the policy (reflective value + the assignment must exist in the AST; fail closed)."""
 import ast
 
-from translate import reflect, emit, fail, find_func, module_ast  # noqa: F401
+from translate import reflect, emit, fail, find_func, module_ast, TranslateError  # noqa: F401
 
 MST = "bip_utils/bip/bip32/slip10/bip32_slip10_mst_key_generator.py"
 DER = "bip_utils/bip/bip32/slip10/bip32_slip10_key_derivator.py"
@@ -147,6 +147,16 @@ def generate():
         out.append(f"Definition {name} : {ty} := {txt}.")
     out.extend(mst_key_lines())
     out.extend(electrum_v1_lines())
+    # SLIP-0010's re-hash prefix (0x01 || IR || ser32(i)).  The library has no such constant while defect F1 is open
+    # (its derivator has no re-hash branch); fixes/F1.diff introduces Bip32Slip10DerivatorConst.RETRY_PREFIX.  Take
+    # the library's value when it exists, else the standard's, so that the model follows the source after the repair.
+    try:
+        rp = reflect(DER, "Bip32Slip10DerivatorConst", "RETRY_PREFIX")
+        src = "Bip32Slip10DerivatorConst.RETRY_PREFIX"
+    except TranslateError:
+        rp, src = b"\x01", "SLIP-0010 (no library constant yet: F1)"
+    ty, txt = emit("bytes", rp)
+    out.append(f"Definition slip10_retry_prefix : {ty} := {txt}.  (* source: {src} *)")
     check_bip32_classes()
     # HmacSha512.DigestSize() // 2 as used by QuickDigestHalves / GenerateFromSeed
     find_func("bip_utils/utils/crypto/hmac.py", "HmacSha512", "DigestSize")
